@@ -117,6 +117,11 @@ Inductive stmt :=
   | SIf (c : expr) (a b : stmts)
   | SWhile (c : expr) (b : stmts)
   | SFor (t : target) (it : expr) (b : stmts)
+  | SForWB (x : string) (it : expr) (b : stmts)
+      (* pl14, additive: [for x in <l-value path>: body] where the body mutates the object bound to [x]
+         and never rebinds [x]: after each iteration the value of [x] is written back to the element
+         it came from (in Python the loop variable IS that element).  Emitted by the translator only
+         under that syntactic condition (tools/pylite.py, [forwb_pattern]). *)
   | SReturn (e : oexpr)
   | SRaise (e : expr)
   | SAssert (e : expr)
@@ -224,7 +229,10 @@ Definition f32_to_pv (bits : N) : pv :=
   let sign := Z.shiftr b 31 in
   let ex := Z.land (Z.shiftr b 23) 255 in
   let man := Z.land b (2 ^ 23 - 1) in
-  if ex =? 255 then PF64 (Z.to_N (Z.lor (Z.shiftl sign 63) (Z.lor (Z.shiftl 2047 52) (Z.shiftl man 29))))
+  (* pl14: a single-precision NaN converted to double has its quiet bit set (the hardware conversion that
+     struct.unpack('f') goes through quiets a signalling NaN); infinities are unchanged *)
+  if ex =? 255 then PF64 (Z.to_N (Z.lor (Z.shiftl sign 63) (Z.lor (Z.shiftl 2047 52)
+                                  (Z.lor (Z.shiftl man 29) (if man =? 0 then 0 else 2 ^ 51)))))
   else
     let m := if ex =? 0 then man else man + 2 ^ 23 in
     let e := if ex =? 0 then 149 else 150 - ex in
@@ -885,7 +893,11 @@ Fixpoint path_get (P : prog) (e : env) (p : expr) : option pv :=
       | _ => None
       end
   | EIndex q i =>
-      match path_get P e q, idx_val e i with
+      (* pl14, additive: the index may also be an attribute chain ([samples[data.chan]]), read as a path *)
+      match path_get P e q, (match i with
+                             | EAttr _ _ => match path_get P e i with Some v => as_int v | None => None end
+                             | _ => idx_val e i
+                             end) with
       | Some (PList l), Some z => match norm_index (List.length l) z with
                                   | Some k => nth_error l k | None => None end
       | _, _ => None
@@ -904,7 +916,10 @@ Fixpoint path_set (P : prog) (e : env) (p : expr) (v : pv) : option env :=
       | _ => None
       end
   | EIndex q i =>
-      match path_get P e q, idx_val e i with
+      match path_get P e q, (match i with
+                             | EAttr _ _ => match path_get P e i with Some v => as_int v | None => None end
+                             | _ => idx_val e i
+                             end) with
       | Some (PList l), Some z => match norm_index (List.length l) z with
                                   | Some k => path_set P e q (PList (list_set l k v)) | None => None end
       | _, _ => None
@@ -1361,6 +1376,34 @@ Section Interp.
                | ORet v e2 => Ok (ORet v e2)
                end
            end) l e1
+    | SForWB x it b =>
+        do (vi, e1) <- eval e it;
+        match vi with
+        | PList l0 =>
+            (fix loop (k : nat) (l : list pv) (e : env) : res out :=
+               match l with
+               | [] => Ok (ONorm e)
+               | y :: r =>
+                   (* the element the loop variable stands for gets the variable's final value *)
+                   let wb (e2 : env) : res env :=
+                     match lookup x e2 with
+                     | Some v =>
+                         match path_set P e2 (EIndex it (EConst (PInt (Z.of_nat k)))) v with
+                         | Some e3 => Ok e3
+                         | None => Unsupported "for write-back target"
+                         end
+                     | None => Unsupported "for write-back variable"
+                     end in
+                   match exec_block (update x y e) b with
+                   | Ok (ONorm e2) | Ok (OCont e2) => do e3 <- wb e2; loop (S k) r e3
+                   | Ok (OBrk e2) => do e3 <- wb e2; Ok (ONorm e3)
+                   | Ok (ORet v e2) => do e3 <- wb e2; Ok (ORet v e3)
+                   | ExcS c e2 => do e3 <- wb e2; ExcS c e3   (* mutated, then raised *)
+                   | r' => r'
+                   end
+               end) O l0 e1
+        | _ => Unsupported "for write-back over a value that is not a list"
+        end
     | SReturn o =>
         match o with
         | ONone => Ok (ORet PNone e)
